@@ -14,7 +14,7 @@ done | xargs -P $J -I{} sh -c "{}"
 for f in $OUT/*.txt; do
   n=$(basename $f .txt); v=$(grep -c "^VIOLATION" $f); c=$(grep -c "CHECKER-CRASH" $f)
   case "$n" in
-    R*) [ "$v" = 0 ] && [ "$c" = 0 ] && echo "ok    $n (no alarm)" || echo "ALARM $n violations=$v crashes=$c" ;;
-    *)  [ "$v" != 0 ] && echo "ok    $n (violations=$v)" || echo "MISS  $n" ;;
+    R*) if grep -q "PATCH DOES NOT APPLY" $f; then echo "STALE $n (patch does not apply to the current tree)"; elif [ "$v" = 0 ] && [ "$c" = 0 ]; then echo "ok    $n (no alarm)"; else echo "ALARM $n violations=$v crashes=$c"; fi ;;
+    *)  if grep -q "PATCH DOES NOT APPLY" $f; then echo "STALE $n (patch does not apply to the current tree)"; elif [ "$v" != 0 ]; then echo "ok    $n (violations=$v)"; else echo "MISS  $n"; fi ;;
   esac
 done
